@@ -54,7 +54,7 @@ VARIABLES
   fault      \* [at |-> n, kind |-> "find" | "read"]: the n-th loader call fails (at = 0: never)
 
 Kinds     == {"use", "forward", "import", "loadcss"}
-Spellings == {"plain", "dot", "dd"}
+Spellings == {"plain", "dot", "dd", "ext"}      \* "ext": the plain spelling with the explicit extension `t.scss`
 IsModuleKind(k) == k \in {"use", "forward"}
 
 (* where a file lives, and its canonical name *)
@@ -66,7 +66,7 @@ NameOfFile(f) == DirOfFile(f) \o <<f>>
 Base(imp, t) == IF DirOfFile(imp) = DirOfFile(t) THEN <<>>
                 ELSE IF DirOfFile(imp) = <<>> THEN <<"d">> ELSE <<"..">>
 Detour(imp)  == IF DirOfFile(imp) = <<>> THEN <<"d", "..">> ELSE <<"..", "d">>
-UrlIn(imp, s) == CASE s.sp = "plain" -> Base(imp, s.target) \o <<s.target>>
+UrlIn(imp, s) == CASE s.sp \in {"plain", "ext"} -> Base(imp, s.target) \o <<s.target>>
                    [] s.sp = "dot"   -> <<".">> \o Base(imp, s.target) \o <<s.target>>
                    [] s.sp = "dd"    -> Detour(imp) \o Base(imp, s.target) \o <<s.target>>
 
@@ -126,11 +126,12 @@ TgtName == IF Dev \cap {"lock_key_textual", "modcache_key_textual"} # {}
 (* the loader calls one load statement makes: the generated files are named *)
 (* `<t>.scss`, which is candidate 1 for @use/@forward/load-css and          *)
 (* candidate 3 (after <t>.import.scss and _<t>.import.scss) for @import     *)
-NCalls(k) == IF k = "import" THEN 3 ELSE 1
+(* (a URL with an explicit extension is looked up as it is: one call)        *)
+NCallsOf(st) == IF st.sp = "ext" THEN 1 ELSE IF st.kind = "import" THEN 3 ELSE 1
 (* does the armed fault hit this load?  A lookup fault fails whichever call *)
 (* it is armed on; a read fault only matters on the call that finds a file  *)
-FaultHits == /\ fault.at > calls /\ fault.at <= calls + NCalls(Stmt.kind)
-             /\ (fault.kind = "find" \/ fault.at = calls + NCalls(Stmt.kind))
+FaultHits == /\ fault.at > calls /\ fault.at <= calls + NCallsOf(Stmt)
+             /\ (fault.kind = "find" \/ fault.at = calls + NCallsOf(Stmt))
 
 (* Loader failure while looking up or reading the file: reported as an error *)
 LoadFault == /\ AtStmt /\ FaultHits
@@ -141,14 +142,14 @@ LoadFault == /\ AtStmt /\ FaultHits
 LockLoop == /\ AtStmt /\ ~FaultHits
             /\ LockKey(TgtName) \in loading
             /\ result' = "loop"
-            /\ calls' = calls + NCalls(Stmt.kind)
+            /\ calls' = calls + NCallsOf(Stmt)
             /\ UNCHANGED <<Dev, fault, prog, stack, loading, modcache, execs, modinits>>
 
 Lock == /\ AtStmt /\ ~FaultHits
         /\ LockKey(TgtName) \notin loading
         /\ loading' = loading \cup {LockKey(TgtName)}
         /\ stack' = SetTop([Top EXCEPT !.phase = "locked"])
-        /\ calls' = calls + NCalls(Stmt.kind)
+        /\ calls' = calls + NCallsOf(Stmt)
         /\ UNCHANGED <<Dev, fault, prog, modcache, result, execs, modinits>>
 
 Locked == Running /\ Top.phase = "locked"
